@@ -126,3 +126,120 @@ Example C03_progress_example :
   (exists pages, paginate_res pg_doc 30 10 = PDone pages /\ length pages = 7%nat) /\
   (exists pages, paginate_res pg_doc 1000 10 = PDone pages /\ length pages = 4%nat).
 Proof. exact pagination_terminates_example. Qed.
+
+(* ================= source: the arithmetic of the fragmentation model, REGENERATED from /repo on every run =========
+   (gen/GenLayoutCtx.v from weasyprint/layout/__init__.py, gen/GenBreakLine.v from weasyprint/layout/block.py) *)
+From Coq Require Import String.
+Require WV.base.Py WV.base.PyLink WV.gen.GenLayoutCtx WV.gen.GenBreakLine.
+Require WV.proofs.C03_gen_overflows WV.proofs.C03_gen_break_line WV.proofs.C03_gen_find_earlier.
+Module OV := WV.proofs.C03_gen_overflows.
+Module BL := WV.proofs.C03_gen_break_line.
+Module FE := WV.proofs.C03_gen_find_earlier.
+
+(* LayoutContext.overflows(bottom, position_y), for every pair of rationals: position_y > bottom * (1 + 1/10^9)
+   (the literal 1e-9 read as the exact rational) *)
+Theorem C03_source_overflows_exact O (HO : Py.ops_ok O) (b y : QArith_base.Q) :
+  Py.run O GenLayoutCtx.ctx_overflows_body
+    [("bottom"%string, Py.VNum b); ("position_y"%string, Py.VNum y)]
+    (fun _ r => r = Some (Py.VBool (negb (QArith_base.Qle_bool y (QArith_base.Qmult b
+                   (QArith_base.Qplus (QArith_base.Qmake 1%Z 1%positive) (QArith_base.Qmake 1%Z 1000000000%positive)))))))
+    (fun _ => False).
+Proof. exact (OV.gen_overflows_exact O HO b y). Qed.
+Print Assumptions C03_source_overflows_exact.
+
+(* ... which on integers, and on the multiples a/D, c/D of any 1/D, is the test `overflows` of the model
+   (c > a for a >= 0, c >= a for a < 0), for -10^9 <= a < 10^9 *)
+Theorem C03_source_overflows_is_model O (HO : Py.ops_ok O) (a c : Z) (D : positive) :
+  (-1000000000 <= a < 1000000000)%Z ->
+  Py.run O GenLayoutCtx.ctx_overflows_body
+    [("bottom"%string, Py.VNum (QArith_base.Qmake a D)); ("position_y"%string, Py.VNum (QArith_base.Qmake c D))]
+    (fun _ r => r = Some (Py.VBool (overflows a c))) (fun _ => False).
+Proof. exact (OV.gen_overflows_grid O HO a c D). Qed.
+Print Assumptions C03_source_overflows_is_model.
+
+(* outside that range the two differ (bottom = 10^9, y = 10^9 + 1; bottom = -10^9 - 1, y = -10^9 - 2) *)
+Theorem C03_source_overflows_out_of_range_refuted :
+  (exists b y : Z, ~ (-1000000000 <= b < 1000000000)%Z /\
+     OV.src_overflows (QArith_base.inject_Z b) (QArith_base.inject_Z y) = false /\ overflows b y = true) /\
+  (exists b y : Z, ~ (-1000000000 <= b < 1000000000)%Z /\
+     OV.src_overflows (QArith_base.inject_Z b) (QArith_base.inject_Z y) = true /\ overflows b y = false).
+Proof. exact OV.gen_overflows_out_of_range_refuted. Qed.
+Print Assumptions C03_source_overflows_out_of_range_refuted.
+
+(* LayoutContext.overflows_page(bottom_space, position_y), its call of self.overflows linked to the regenerated body:
+   what the model writes `overflows (page_bottom c - bottom_space) y`, on the multiples of any 1/D *)
+Theorem C03_source_overflows_page_is_model n (pb bs y : Z) (D : positive) (extra : list (String.string * Py.val)) :
+  (-1000000000 <= pb - bs < 1000000000)%Z ->
+  Py.run (PyLink.linked GenLayoutCtx.GenLayoutCtx_table (S (S n))) GenLayoutCtx.ctx_overflows_page_body
+    [("self"%string, Py.VObj (("page_bottom"%string, Py.VNum (QArith_base.Qmake pb D)) :: extra));
+     ("bottom_space"%string, Py.VNum (QArith_base.Qmake bs D)); ("position_y"%string, Py.VNum (QArith_base.Qmake y D))]
+    (fun _ r => r = Some (Py.VBool (overflows (pb - bs)%Z y))) (fun _ => False).
+Proof. exact (OV.gen_overflows_page_grid n pb bs y D extra). Qed.
+Print Assumptions C03_source_overflows_page_is_model.
+
+(* _break_line, whole: for every list of placed lines, every list of lines still to come, orphans, widows >= 1 and
+   page_is_empty, the regenerated body answers (abort, stop, resume_at) and leaves in new_children what
+   `break_line` of the model decides: None = (True, False, resume_at), nothing removed; Some drop = (False, True,
+   {index: skip_stack}) and the last `drop` lines removed.  remove_placeholders is any function (rp1, rp2, rp3: the
+   state of context / absolute_boxes / fixed_boxes after the call); BL.dict1 k v is the display {k: v} *)
+Theorem C03_source_break_line_is_model
+        (T : Type) (kids_of : T -> list Py.val) (extra : T -> list (String.string * Py.val)) rp1 rp2 rp3
+        (O : Py.qops) (HO : Py.ops_ok O)
+        (HR : forall cx l ab fb,
+            Py.ocall O "remove_placeholders"%string [Py.VObj cx; Py.VList l; Py.VList ab; Py.VList fb] =
+            Py.VList [Py.VNone; Py.VObj (rp1 cx l ab fb); Py.VList (rp2 cx l ab fb); Py.VList (rp3 cx l ab fb)])
+        (HD : forall k v, Py.ocall O "%dict1"%string [k; v] = BL.dict1 k v)
+        st sx bx lc lx rest pie ix sk ra cx (ncs : list T) ab fb :
+  BL.not_err sk -> (1 <= s_widows st)%nat ->
+  Py.run O GenBreakLine.break_line_body (BL.bl_env T kids_of extra st sx bx lc lx rest pie ix sk ra cx ncs ab fb)
+    (fun rho r =>
+       match break_line st (List.length ncs) (List.length rest) pie with
+       | None => r = Some (Py.VList [Py.VBool true; Py.VBool false; ra]) /\
+                 Py.lookup "new_children"%string rho = Py.VList (map (BL.vline T kids_of extra) ncs)
+       | Some drop => r = Some (Py.VList [Py.VBool false; Py.VBool true; BL.dict1 (Py.vint ix) sk]) /\
+                      Py.lookup "new_children"%string rho =
+                      Py.VList (map (BL.vline T kids_of extra) (removelast_n drop ncs))
+       end)
+    (fun _ => False).
+Proof. exact (BL.gen_break_line T kids_of extra rp1 rp2 rp3 O HO HR HD st sx bx lc lx rest pie ix sk ra cx ncs ab fb). Qed.
+Print Assumptions C03_source_break_line_is_model.
+
+(* find_earlier_page_break, the case of a list of line boxes (its first statement): it returns what
+   `find_earlier_f` of the model returns on a fragment whose children are these lines (None, or the first
+   len - widows lines and the place to resume), for every orphans >= 1, widows and list of lines *)
+Theorem C03_source_find_earlier_lines_is_model rp1 rp2 rp3 (O : Py.qops) (HO : Py.ops_ok O)
+        (on wn : nat) (sx lcf bxs : list (String.string * Py.val))
+        (HR : forall cx l ab fb,
+            Py.ocall O "remove_placeholders"%string [Py.VObj cx; Py.VList l; Py.VList ab; Py.VList fb] =
+            Py.VList [Py.VNone; Py.VObj (rp1 cx l ab fb); Py.VList (rp2 cx l ab fb); Py.VList (rp3 cx l ab fb)])
+        (HD : forall k v, Py.ocall O "%dict1"%string [k; v] = BL.dict1 k v)
+        (HI : forall d, Py.ocall O "%isinstance"%string [FE.enc_line on wn sx d; Py.VObj lcf] = Py.VBool true)
+        st i y mt mb pt pb bt bb h (d0 : FE.ldata) (ds : list FE.ldata) cx ab fb :
+  (1 <= on)%nat ->
+  Py.run O GenBreakLine.find_earlier_lines_body
+    [("context"%string, Py.VObj cx); ("children"%string, Py.VList (map (FE.enc_line on wn sx) (d0 :: ds)));
+     ("absolute_boxes"%string, Py.VList ab); ("fixed_boxes"%string, Py.VList fb);
+     ("boxes"%string, Py.VObj (("LineBox"%string, Py.VObj lcf) :: bxs))]
+    (fun _ r =>
+       exists enc : frag -> Py.val,
+         (forall d, enc (FE.mk_line on wn d) = FE.enc_line on wn sx d) /\
+         r = Some (FE.enc_found (find_earlier_f (FBlk st i y mt mb pt pb bt bb h (map (FE.mk_line on wn) (d0 :: ds)))) enc))
+    (fun _ => False).
+Proof.
+  exact (FE.gen_find_earlier rp1 rp2 rp3 O HO on wn sx lcf bxs HR HD HI st i y mt mb pt pb bt bb h d0 ds cx ab fb).
+Qed.
+Print Assumptions C03_source_find_earlier_lines_is_model.
+
+(* the hypotheses of the two theorems are satisfiable (an operations record, a run of each body) *)
+Example C03_source_examples :
+  (Py.ops_ok BL.ex_ops /\
+   (forall cx l ab fb, Py.ocall BL.ex_ops "remove_placeholders"%string [Py.VObj cx; Py.VList l; Py.VList ab; Py.VList fb] =
+                       Py.VList [Py.VNone; Py.VObj cx; Py.VList ab; Py.VList fb]) /\
+   (forall k v, Py.ocall BL.ex_ops "%dict1"%string [k; v] = BL.dict1 k v)) /\
+  break_line (mkStyle 0 0 0 0 0 0 BAuto BAuto BAuto 2 3 false) 5 1 false = Some 1%nat /\
+  find_earlier_f (FBlk (mkStyle 0 0 0 0 0 0 BAuto BAuto BAuto 2 2 false) 0 0%Z 0%Z 0%Z 0%Z 0%Z 0%Z 0%Z 50%Z (map (FE.mk_line 2 2) FE.ex_lines)) =
+    Some (map (FE.mk_line 2 2) (firstn 3 FE.ex_lines), SChild 0 (Some (SLine 3))).
+Proof.
+  split; [exact BL.ex_ops_hyps|]. split; [exact (proj1 BL.gen_break_line_example)|exact (proj1 FE.gen_find_earlier_example)].
+Qed.
+Print Assumptions C03_source_examples.
